@@ -4,6 +4,13 @@ encoded event dictionaries and records what the library does with them.
 stdin:  {"cases": [case, ...]}  (see harness/c03.py for the case format), or {"list": true}
         a case may carry "changes": [[after_tick, [[default name, value], ...]], ...]: assignments to timeline.defaults.<name>
         performed between two ticks of the running track (after_tick -1 = after schedule(), before the first tick)
+        a case may carry "held": [[slot, tonic, semitones, octave_size, share | null], ...]: Key objects built before the track is
+        scheduled (on a Scale object of their own, or on the Scale object of the key in slot `share`) and referred to from the
+        event dictionaries / the defaults as {"hk": slot}, and "muts": [[after_tick, [operation, ...]], ...]: in-place operations on
+        those objects between two ticks: ["tonic", slot, t] = key.tonic = t; ["scale", slot, semitones, octave_size] = key.scale = a
+        new Scale object; ["semis", slot, semitones, how, swap] = key.scale.semitones assigned / replaced in place / two positions
+        swapped (what Scale.change() does).  mode "pdictseq": the track is scheduled as ONE dictionary of patterns (a key object that
+        is the same in every event is given as the constant it is).
 stdout: {"results": [{"event": {"raise": cls} | {"view": enc}, "trace": [[tick, method, [enc args]], ...],
                       "raise": cls | null, "raise_tick": int | null, "pulls": {...}}, ...]}
 
@@ -85,11 +92,40 @@ def main():
 
     class World:
         """objects of one run of one case (fresh per run, so that pattern state never leaks)"""
-        def __init__(self, device):
+        def __init__(self, device, held=()):
             self.device = device
             self.objs = {}
             self.ids = {}
             self.patterns = []
+            self.held = {}
+            for slot, tonic, semis, osize, share in held:
+                if share is None:
+                    sc = Scale(list(semis), "verif-c03-held-scale-%d" % slot, octave_size=osize)
+                else:
+                    sc = self.held[share].scale
+                self.held[slot] = Key(tonic, sc)
+            self.n_scales = len(self.held)
+        def mutate(self, m):
+            """an in-place operation on a held Key object / on the Scale object it refers to"""
+            kind, slot = m[0], m[1]
+            key = self.held[slot]
+            if kind == "tonic":
+                key.tonic = m[2]
+            elif kind == "scale":
+                self.n_scales += 1
+                key.scale = Scale(list(m[2]), "verif-c03-held-scale-%d" % self.n_scales, octave_size=m[3])
+            elif kind == "semis":
+                how = m[3]
+                if how == "assign":
+                    key.scale.semitones = list(m[2])
+                elif how == "inplace":
+                    key.scale.semitones[:] = list(m[2])
+                else:
+                    i, j = m[4]
+                    l = key.scale.semitones
+                    l[i], l[j] = l[j], l[i]
+            else:
+                raise ValueError("unknown operation %r" % (m,))
         def obj(self, kind, oid, ps):
             key = (kind, oid)
             if key not in self.objs:
@@ -134,6 +170,8 @@ def main():
                 return Key(t, Scale(list(semis), "verif-c03-user-scale", octave_size=osize))
             if "o" in v:
                 return self.obj(*v["o"])
+            if "hk" in v:
+                return self.held[v["hk"]]
             if "p" in v:
                 p = Seq([self.dec(x) for x in v["p"]])
                 self.patterns.append(p)
@@ -196,7 +234,7 @@ def main():
         res = {}
         # ---- A. Event(dict, defaults) directly, on the dictionary the track would hand to Event -----------
         try:
-            world = World(Rec())
+            world = World(Rec(), case.get("held") or ())
             defaults = make_defaults(world, case["defaults"])
             d = world.dec({"d": case["direct"]})
             try:
@@ -210,7 +248,7 @@ def main():
         # ---- B. a one-track timeline -----------------------------------------------------------------------
         try:
             dev = Rec()
-            world = World(dev)
+            world = World(dev, case.get("held") or ())
             tl = iso.Timeline(output_device=dev, clock_source=iso.DummyClock(ticks_per_beat=case["tpb"]))
             for name, v in case["defaults"]:
                 setattr(tl.defaults, name, world.dec(v))
@@ -219,6 +257,18 @@ def main():
             try:
                 if case["mode"] == "pdict":
                     track = tl.schedule(world.dec({"d": case["events"][0]}), count=1)
+                elif case["mode"] == "pdictseq":
+                    # ONE dictionary of patterns: entry k yields the k-entries of the successive events; a held key that is
+                    # the same object in every event is the constant it is
+                    names = [k for k, _v in case["events"][0]]
+                    pd = {}
+                    for k in names:
+                        col = [dict((kk, vv) for kk, vv in ev)[k] for ev in case["events"]]
+                        if all(isinstance(v, dict) and "hk" in v for v in col) and len(set(v["hk"] for v in col)) == 1:
+                            pd[k] = world.dec(col[0])
+                        else:
+                            pd[k] = Seq([world.dec(v) for v in col])
+                    track = tl.schedule(pd)
                 else:
                     if case.get("replay_period"):
                         # the same dictionary objects are yielded again on every pass
@@ -233,11 +283,16 @@ def main():
                 # = "timeline.defaults.<name> = value" performed between tick after_tick and the next one
                 # (after_tick -1: after schedule(), before the first tick)
                 changes = case.get("changes") or []
+                muts = case.get("muts") or []
                 def reconfigure(after_tick):
                     for at, kvs in changes:
                         if at == after_tick:
                             for name, v in kvs:
                                 setattr(tl.defaults, name, world.dec(v))
+                    for at, ms in muts:
+                        if at == after_tick:
+                            for m in ms:
+                                world.mutate(m)
                 t = -1
                 reconfigure(-1)
                 for t in range(case["nticks"]):
